@@ -1,5 +1,6 @@
 //! `conform`: executes cases generated from the TLA+ specifications against the real
 //! actix-web code (path dependencies on /repo) and records NDJSON traces that TLC validates
 //! against the property-level monitors (see /verif/DESIGN.md).
+pub mod alloc;
 pub mod areas;
 pub mod util;
